@@ -622,6 +622,18 @@ def find_simple_method(src: str, name: str):
     if any(x.text == ";" for x in btoks) or any(x.kind == "ident" and x.text in ("let", "return", "loop", "while", "for") for x in btoks):
         return None
     expr = " ".join(l.strip() for l in body.strip().split("\n") if not l.strip().startswith("//"))
+    # `Self` inside the helper refers to the helper's own impl type
+    hdr = None
+    for mm in re.finditer(r"\bimpl\b([^{;]*)\{", src):
+        if mm.end() <= toks[fn_kw].start:
+            hdr = mm.group(1)
+    if hdr is not None:
+        ty = hdr.split(" for ")[-1].strip()
+        ty = re.sub(r"^<[^>]*>\s*", "", ty)            # impl<T> Foo<T>  ->  Foo<T>
+        tyname = re.match(r"[\w:]+", ty)
+        if tyname:
+            etoks = lex(expr)
+            expr = "".join(tyname.group(0) if (x.kind == "ident" and x.text == "Self") else x.text for x in etoks)
     return expr
 
 
@@ -1118,8 +1130,16 @@ def process_template(tpl_path: str, repo: str, variant: dict | None = None) -> U
             j += 1
         if j >= len(tpl):
             raise ExtractError("template: //@extract without //@end at line %d" % (i + 1))
-        gen = _gen_function(kv, sections, repo, res, variant)
-        res.lines.extend(gen)
+        try:
+            gen = _gen_function(kv, sections, repo, res, variant)
+            res.lines.extend(gen)
+        except ExtractError as e:
+            if kv.get("optional") and "anchor lost: fn " in str(e):
+                # an optional function (e.g. a helper that a refactoring may have renamed away): skipped, and recorded
+                res.functions.append({"id": kv["id"], "kind": "absent-optional", "file": kv["file"], "fn": kv["fn"],
+                                      "lines": [0, 0], "sha256": "", "rules": {"absent": str(e)}})
+            else:
+                raise
         i = j + 1
     # byte literal table
     out = []
